@@ -1,0 +1,12 @@
+//go:build verif
+
+// Machine-checked contracts for this package (comment-only; compiled only under the
+// build tag `verif`, where it still contains no code). Checked by /verif/govc.
+package types
+
+//@ func (*VestingTokens).VestedSoFar
+//@ requires vesting.NumBlocks > 0
+//@ nopanic
+//@ ensures C14/linear-schedule: result == (vesting.TotalAmount * min(blockHeight(ctx) - vesting.StartBlock, vesting.NumBlocks)) / vesting.NumBlocks
+//@ ensures C14/bounded: vesting.TotalAmount >= 0 && blockHeight(ctx) >= vesting.StartBlock ==> result >= 0 && result <= vesting.TotalAmount
+//@ ensures C14/complete: blockHeight(ctx) - vesting.StartBlock >= vesting.NumBlocks ==> result == vesting.TotalAmount
